@@ -571,7 +571,7 @@ static void build_workload(void)
     for (int L = 2; L <= MAXL; L++) for (int o1 = 1; o1 < OP_N; o1++) for (int o2 = o1; o2 < OP_N; o2++) for (int p1 = 0; p1 < L; p1++) for (int p2 = 0; p2 < L; p2++) {
         if (o1 == o2 && p2 <= p1) continue;
         if (p1 == p2 && OPS[o1].cls != CL_BENIGN && OPS[o2].cls != CL_BENIGN && o1 != o2 && L > 3) continue;   /* two defects on the same certificate: only for short chains */
-        cdesc d = base(L, (o1 * 7 + o2 * 3 + p1 + p2 + L) % 6); d.op[0] = o1; d.pos[0] = p1; d.op[1] = o2; d.pos[1] = p2; d.api = (o1 + o2) % 3; add_case(&d);
+        for (int v = 0; v < 2; v++) { cdesc d = base(L, (o1 * 7 + o2 * 3 + p1 + p2 + L + v * 2) % 6); d.op[0] = o1; d.pos[0] = p1; d.op[1] = o2; d.pos[1] = p2; d.api = (o1 + o2 + v) % 3; add_case(&d); }
     }
     /* G. operators x anchor sets x permutations */
     for (int L = 2; L <= MAXL; L++) for (int op = 1; op < OP_N; op++) for (int p = 0; p < L; p++) for (int a = 1; a < A_N; a++) {
@@ -588,6 +588,16 @@ typedef struct { long from, to; const long *idx; } batch_t;
 static void run_batch(void *arg) { batch_t *b = arg; int want = g_sample; for (long i = b->from; i < b->to; i++) { g_sample = want && ((i - b->from) % 9 == 4); run_case(&CASES[b->idx[i]]); } }
 static void run_one(void *arg) { run_case((const cdesc *) arg); }
 
+/* --case: vf_fork_case leaves the child's stderr alone in replay mode, so a sanitizer report would not reach the crash record and the key would degrade to
+ * crash:<cls>:exit-N.  Run the case once with stderr captured (records, correct keys), then - with -v - once more uncaptured and unrecorded for the human reader. */
+static void replay_one(void *c, const char *cls)
+{
+    const char *spec = vf_case; vf_case = NULL;
+    vf_fork_case(run_one, c, cls, spec, 120);
+    vf_case = spec;
+    if (vf_flag("-v")) { int out = vf_outfd; vf_outfd = open("/dev/null", O_WRONLY); vf_fork_case(run_one, c, cls, spec, 120); close(vf_outfd); vf_outfd = out; }
+}
+
 int main(int argc, char **argv)
 {
     vf_init(argc, argv);
@@ -596,7 +606,7 @@ int main(int argc, char **argv)
     if (vf_case) {
         cdesc d; if (desc_parse(vf_case, &d) < 0) { vf_incon("unparsable case spec: %s", vf_case); vf_flush(); return 2; }
         for (int i = 0; i < d.L; i++) cg_key_get(d.kt[i], i);
-        vf_fork_case(run_one, &d, "c03", vf_case, 120);
+        replay_one(&d, "c03");
         vf_flush(); matrixSslClose(); return 0;
     }
     build_workload();
